@@ -480,9 +480,11 @@ func TestVerifC10Run(t *testing.T) {
 		slow := i%2 == 1
 		r := c10Run(script, s.Hist, slow)
 		if r.Hang != "" {
-			// confirm: a hang must reproduce
+			// confirm: a hang must reproduce.  Whether a schedule hangs may depend on how the real goroutines and
+			// the peer process interleave (the controller only steers), so the schedule is executed up to seven
+			// more times and the hang counts when it is seen three times in all
 			n := 1
-			for k := 0; k < 2; k++ {
+			for k := 0; k < 7 && n < 3; k++ {
 				if r2 := c10Run(script, s.Hist, slow); r2.Hang != "" {
 					n++
 				}
@@ -490,6 +492,7 @@ func TestVerifC10Run(t *testing.T) {
 			if n < 3 {
 				r.Hang = "UNREPRODUCED " + r.Hang
 			} else {
+				r.Hang += fmt.Sprintf(" (seen %d times in repeated executions of the schedule)", n)
 				atomic.AddInt64(&hangs, 1)
 			}
 		}
